@@ -34,6 +34,38 @@ CHECKS = {
              ]},
         ],
     },
+    "C04": {
+        "explanation": "bounded symbolic execution of the leader's real messageProcessingLoop, processPendingMessage, commitLoop, updateISRLatestOffset, RemoveFromISR/AddToISR and sendAck on a directly built partition over a real commit log, with the envelope codec and NATS publish as recorders",
+        "assumptions": ["protocol.UnmarshalPublish/MarshalAck and nats.Conn.Publish are stand-ins (recorders); C14 covers the real envelope code",
+                        "actions (replica report, shrink, expand) are atomic and the commit loop runs to its next wait after each (action granularity)",
+                        "encryption is a tagging stand-in (C17 covers the real framing)"],
+        "groups": [
+            {"pkg": "./server", "overlay": "server", "pkgname": "server",
+             "harnesses": [
+                 {"name": "VerifC04Acks", "quick": {"maxbatch": 2, "actions": 2, "encryption": 0, "occ": 0}, "thorough": {"maxbatch": 2, "actions": 3, "encryption": 1, "occ": 0},
+                  "replay": "interpreted", "max-paths": 3000000,
+                  "covers": ["done", "rejected", "leader-ack", "all-ack"],
+                  "targets": ["partition).messageProcessingLoop", "partition).processPendingMessage", "partition).commitLoop", "partition).sendAck", "partition).sendTooLargeNack"]},
+             ]},
+        ],
+    },
+    "C16": {
+        "explanation": "bounded symbolic execution of conditional appends on a commit log with optimistic concurrency control, and of the leader loop on such a partition",
+        "assumptions": ["expected offsets are arbitrary 64-bit values", "partition level: the same stand-ins as C04"],
+        "groups": [
+            {"pkg": "./server/commitlog", "overlay": "commitlog", "pkgname": "commitlog",
+             "harnesses": [
+                 {"name": "VerifC16ConditionalAppend", "quick": {"publishes": 3}, "thorough": {"publishes": 5},
+                  "covers": ["done", "accepted", "refused"], "targets": ["newMessageSetFromProto", "commitLog).Append"]},
+             ]},
+            {"pkg": "./server", "overlay": "server", "pkgname": "server",
+             "harnesses": [
+                 {"name": "VerifC04Acks", "quick": {"maxbatch": 2, "actions": 1, "encryption": 0, "occ": 1}, "thorough": {"maxbatch": 3, "actions": 1, "encryption": 0, "occ": 1},
+                  "replay": "interpreted", "max-paths": 3000000,
+                  "covers": ["done", "rejected"], "targets": ["partition).messageProcessingLoop", "newMessageSetFromProto"]},
+             ]},
+        ],
+    },
     "C05": {
         "explanation": "bounded symbolic execution of the real commit log with a crash after a symbolic k-th file-system effect (memFS effect counter), followed by the real recovery (New) and a full read-back",
         "assumptions": ["process-crash model: an effect that returned is durable, effects apply in program order, a single write/mmap store/rename is atomic",
@@ -186,6 +218,10 @@ CHECKS = {
 TECH = "bounded symbolic execution of the real Go code (go/ssa) with z3; counterexamples replayed natively"
 
 META = {
+    "C04": {"text": "Bounded symbolic model checking of the implementation: a batch of publishes with symbolic ack policy, size class, expected offset and encryption outcome runs through the real leader loop and commit loop; replica progress reports (symbolic offsets), ISR shrinks and expansions follow in every order; every ack handed to the ack inbox is recorded and checked against the policy semantics, the stored bytes at the acked offset, and the ISR at the moment the commit loop acted.",
+            "design_ref": "DESIGN.md §4 C04", "note": "bounds: batch of 1-2 messages, 2 (quick) / 3 (thorough) follow-up actions, replication factor 1 or 3, min ISR 1..RF; action-atomic interleaving; replay by concrete re-execution (stand-ins)", "technique": TECH},
+    "C16": {"text": "Bounded symbolic model checking of the implementation: (a) k conditional single-message appends with arbitrary 64-bit expected offsets on a real log with concurrency control: stored iff -1 or exactly the assigned offset, refused appends leave the log unchanged, no two appends with the same expected offset succeed; (b) the leader loop on such a partition with 2-3 publishes arriving together: each is appended on its own, refused ones get INCORRECT_OFFSET and nothing else is disturbed.",
+            "design_ref": "DESIGN.md §4 C16", "note": "bounds: 3 (5) appends; 2 (3) publishes in the leader loop; arrival order is the channel order (one receive channel)", "technique": TECH},
     "C06": {"text": "Bounded model checking of the implementation by the symbolic executor: every valid history of k operations (12 kinds, validity decided by the real check*Preconditions) is applied through the real Server.Apply on two servers (determinism), snapshotted at every position j, and a third server is restarted on the first one's data directory by Restore(snapshot@j) plus replay of j+1..k through the real recovery-range detection; streams, partitions, leaders, ISR, epochs, paused/read-only flags (as enforced by the commit log), groups, members, coordinators, the deferred-start flag and the stream data directories are compared.",
             "design_ref": "DESIGN.md §4 C06", "note": "bounds: k = 3 (quick) / 4 (thorough) operations, all snapshot positions 0..k; the data here is concrete-shaped, so the solver's role is small: the quantifier is covered by exhaustive enumeration of decision vectors in the executor; counterexamples are replayed by concrete re-execution in the interpreter (the harness depends on the Raft stand-in)", "technique": TECH},
     "C19": {"text": "Symbolic execution of the real collector (New/Start/run/sendTelemetry/collectPayload/loadOrCreateInstanceID) with a symbolic enabled flag, a virtual clock that lets two reporting intervals pass, memFS for the instance-id file and the HTTP stack as an effect recorder: disabled => no request at all; enabled => endpoint fixed, JSON keys within the documented set, the data directory string (standing for everything the server passes in) absent from URL, headers and body. This is the thinnest check of the set: one symbolic boolean; its value is that it re-derives the key set and the data flow from the current source on every run.",
